@@ -136,8 +136,29 @@ def scenario(draw) -> Dict[str, Any]:
             'events': events, 'tail_ms': 2500, 'pre_updates': pre_updates}
 
 
+@st.composite
+def long_gap_scenario(draw) -> Dict[str, Any]:
+    """Directed: the host's copy of its own SRV / address records (TTL 120 s) runs out in its cache while the TXT record of the
+    same name (4500 s) stays; before that a QU question was answered by unicast alone (the responder consulted the cache, nothing
+    was multicast); afterwards the record is asked for twice within a second: the second answer waits for the first one's second."""
+    services = draw(c11.services_st(2))
+    for s_ in services:
+        s_['host_ttl'], s_['other_ttl'] = 120, 4500
+    k_ = draw(st.integers(0, len(services) - 1))
+    tk, qt = draw(st.sampled_from([('inst', 33), ('inst', 33), ('host', 1)]))
+    mk = lambda gap, qu, qid, client: {'gap': gap, 'kind': 'query', 'qs': [[tk, k_, 0, qt, qu]], 'ka': [], 'probe': False, 'client': client,
+                                       'family': 'v4', 'port': 5353, 'sock': 0, 'id': qid}
+    events = [mk(draw(st.sampled_from([0, 500, 3000])), True, 1, 0),
+              mk(draw(st.sampled_from([125000, 135000, 200000])), False, 2, 1),
+              mk(draw(st.sampled_from([200, 300, 500, 900, 999])), False, 3, 2)]
+    if draw(st.booleans()):
+        events.append(mk(draw(st.sampled_from([300, 1001, 1500])), False, 4, 0))
+    return {'jitter': {'seed': draw(st.integers(0, 10**6))}, 'socks': 'v4', 'services': services, 'settle_ms': draw(st.sampled_from([1500, 3000])),
+            'events': events, 'tail_ms': 2500, 'pre_updates': [], 'shape': 'own-record-expired-in-own-cache-then-asked-twice'}
+
+
 def strategy(tier: str):
-    return scenario()
+    return st.integers(0, 14).flatmap(lambda k: long_gap_scenario() if k == 0 else scenario())
 
 
 def known_signature(case: Any, v: Violation):
@@ -226,6 +247,10 @@ def check(case: Dict[str, Any]) -> Dict[str, Any]:
         probe = any(p['probe'] for p in packets)
         known = [k for p in packets if not p['probe'] for k in p['known']]   # a probe packet's own answer section is not read
         exp, dont_care, allowed, _ = run.model.answers([(n, t) for n, t, _ in questions], known)
+        if any(qu for _, _, qu in questions):
+            # a query with a QU question may be answered by unicast alone (C11's subject): it demands no multicast here and
+            # excuses one inside its window
+            dont_care = set(exp) | set(dont_care)
         first_qs = packets[0]['questions']
         immediate_shape = len(first_qs) == 1 and first_qs[0][1] in IMMEDIATE_TYPES
         logical.append({'g': a['g'], 't': a['t_ms'], 'packets': packets, 'exp': exp, 'dont_care': dont_care, 'probe': probe,
@@ -323,6 +348,8 @@ def check(case: Dict[str, Any]) -> Dict[str, Any]:
         classes.append('train')
     if 'explicit' in case['jitter']:
         classes.append('adversarial-jitter')
+    if case.get('shape'):
+        classes.append('directed-' + case['shape'])
     if any(rq['cls'] == 'protected' and rq['s'] and abs((rq['t'] - rq['s'][0]) - 1000) <= 1.5 for rq in reqs):
         classes.append('protection-boundary')
     nontrivial = overlap or trains2 or any(rq['cls'] == 'protected' for rq in reqs)
